@@ -834,3 +834,156 @@ pub fn c06_real(v: &Verdicts, runs: usize, seed0: u64) -> RealStats {
     });
     st.into_inner().unwrap()
 }
+
+// ------------------------------------------------------------------------------------------------ C14
+/// Lines a node received from its peers since `from` (byte offset in its log): what `handle_client` prints for every line
+/// it reads ("Command print: ...") and what the client side of a link reads back ("replication::next::...").
+fn received_lines(c: &RealCluster, i: usize, from: u64) -> Vec<String> {
+    let bytes = std::fs::read(c.log_path(i)).unwrap_or_default();
+    let txt = String::from_utf8_lossy(&bytes[(from as usize).min(bytes.len())..]).to_string();
+    let mut out = vec![];
+    for l in txt.lines() {
+        if let Some(p) = l.find("Command print: ") {
+            let m = l[p + "Command print: ".len()..].trim();
+            if !m.is_empty() {
+                out.push(m.to_string());
+            }
+        } else if let Some(p) = l.find("replication::next::") {
+            let m = l[p + "replication::next::".len()..].trim();
+            if !m.is_empty() && m != "ok" && !m.starts_with("valid auth") && !m.starts_with("Empty message") {
+                out.push(m.to_string());
+            }
+        }
+    }
+    out
+}
+
+fn log_sizes(c: &RealCluster) -> Vec<u64> {
+    (0..c.n()).map(|i| std::fs::metadata(c.log_path(i)).map(|m| m.len()).unwrap_or(0)).collect()
+}
+
+/// Waits until no node has written to its log for `quiet_ms` (the nodes log nothing while idle at debug level).
+fn wait_logs_quiet(c: &RealCluster, quiet_ms: u64, max_s: u64) -> bool {
+    let start = Instant::now();
+    let mut last = log_sizes(c);
+    let mut since = Instant::now();
+    loop {
+        std::thread::sleep(Duration::from_millis(40));
+        let cur = log_sizes(c);
+        if cur != last {
+            last = cur;
+            since = Instant::now();
+        } else if since.elapsed() > Duration::from_millis(quiet_ms) {
+            return true;
+        }
+        if start.elapsed() > Duration::from_secs(max_s) {
+            return false;
+        }
+    }
+}
+
+fn c14_once(seed: u64, tag: &str, v: &Verdicts, st: &Mutex<RealStats>) -> Result<(), String> {
+    let mut r = Rng::new(seed);
+    let n = r.range(2, 3);
+    let mut c = RealCluster::new(n, tag, &[]);
+    c.log_level = "debug".into();
+    // (name, line template, replicated changes it may produce)
+    let cmds: Vec<(&str, &str, u64)> = vec![
+        ("get", "get k{n}", 0), ("keys", "keys k*", 0), ("set", "set k{n} v{n}", 1), ("set-existing", "set shared v{n}", 1), ("set-safe-accepted", "set-safe k{n} 5 v{n}", 1),
+        ("set-safe-stale", "set-safe shared 0 stale{n}", 0), ("remove", "remove shared2", 1), ("remove-absent", "remove nokey{n}", 1), ("increment", "increment counter 2", 1),
+        ("create-user", "create-user u{n} secret", 1), ("set-permissions", "set-permissions u{n} rw k*", 1), ("snapshot", "snapshot false", 1), ("watch", "watch k{n}", 0), ("unknown", "frobnicate {n}", 0),
+    ];
+    let res = (|| -> Result<(), String> {
+        let order = form(&mut c, n).map_err(|e| format!("formation: {} {}", e.0, e.1))?;
+        let mut clients = vec![];
+        for i in &order {
+            clients.push(c.admin(*i).ok_or("no admin session")?);
+        }
+        clients[0].must("create-db d tok")?;
+        for cl in clients.iter_mut() {
+            // the database reaches the secondaries asynchronously
+            let start = Instant::now();
+            loop {
+                match cl.cmd("use-db d tok")? {
+                    (true, _, _) => break,
+                    _ if start.elapsed() > Duration::from_secs(10) => return Err("database d never reached a secondary".into()),
+                    _ => std::thread::sleep(Duration::from_millis(100)),
+                }
+            }
+        }
+        for l in ["set shared 1", "set shared 2", "set shared2 x", "set counter 1"] {
+            clients[0].must(l)?;
+        }
+        let s_count = (n - 1) as u64;
+        let mut uniq = (seed % 1000) * 100;
+        let mut picks: Vec<usize> = (0..cmds.len() * n).collect();
+        r.shuffle(&mut picks);
+        for oi in picks.into_iter().take(12) {
+            let (name, tmpl, changes) = cmds[oi % cmds.len()];
+            let node = (oi / cmds.len()) % n;
+            uniq += 1;
+            if name == "remove" {
+                clients[0].must("set shared2 again")?;
+            }
+            if !wait_logs_quiet(&c, 300, 20) {
+                return Err("the nodes never stopped logging before a measurement".into());
+            }
+            let before = log_sizes(&c);
+            let line = tmpl.replace("{n}", &uniq.to_string());
+            let _ = clients[node].cmd(&line)?;
+            if !wait_logs_quiet(&c, 400, 20) {
+                v.report(json!({"check": "burst", "command": name, "issued_at": if node == 0 {"primary"} else {"secondary"}, "problem": "no-quiescence-within-step-budget"}), json!({"engine": "real processes", "command": line, "detail": "the nodes were still exchanging lines 20 s after the command"}));
+                return Ok(());
+            }
+            let mut burst: Vec<String> = vec![];
+            for i in 0..n {
+                let mut lines = received_lines(&c, order[i], before[order[i]]);
+                if i == node {
+                    // the client's own command line arrived at the node it was sent to
+                    if let Some(p) = lines.iter().position(|l| l == &line) {
+                        lines.remove(p);
+                    }
+                }
+                burst.extend(lines.into_iter().map(|l| format!("received by n{}: {}", i, l)));
+            }
+            let allowed = changes.max(1) * (1 + 2 * s_count);
+            {
+                let mut s = st.lock().unwrap();
+                s.ops += 1;
+                s.judged_points += 1;
+                s.bump("protocol lines seen", burst.len() as u64);
+                s.classes.insert(format!("{}@{}/n{}", name, if node == 0 { "primary" } else { "secondary" }, n));
+                if s.samples.len() < 3 && burst.len() >= 3 {
+                    s.samples.push(json!({"nodes": n, "command": line, "issued_at": node, "lines": burst}));
+                }
+            }
+            if burst.len() as u64 > allowed {
+                v.report(json!({"check": "burst", "command": name, "issued_at": if node == 0 {"primary"} else {"secondary"}, "problem": "more-messages-than-forward-plus-copies-plus-acks"}),
+                    json!({"engine": "real processes", "nodes": n, "command": line, "bound": allowed, "lines": burst}));
+            }
+        }
+        for i in 0..n {
+            let p = c.panics(i);
+            if !p.is_empty() {
+                v.report(json!({"check": "burst", "command": "any", "issued_at": "any", "problem": "service-thread-panicked"}), json!({"engine": "real processes", "node": i, "panics": p}));
+            }
+        }
+        Ok(())
+    })();
+    c.shutdown();
+    res
+}
+
+pub fn c14_real(v: &Verdicts, runs: usize, seed0: u64) -> RealStats {
+    let st = Mutex::new(RealStats::default());
+    par_runs(runs, 6, |i| {
+        let res = c14_once(seed0.wrapping_mul(14_000_029).wrapping_add(i as u64), &format!("c14-{}", i), v, &st);
+        let mut s = st.lock().unwrap();
+        s.runs += 1;
+        if let Err(why) = res {
+            s.inconclusive += 1;
+            v.inconclusive(&format!("real-process burst run: {}", why));
+        }
+    });
+    st.into_inner().unwrap()
+}
